@@ -84,6 +84,34 @@ def _func(tree, name):
     raise TranslateError('function %s not found' % name)
 
 
+def _with_helpers(tree, fn, depth=2):
+    """fn plus the module-level functions it calls by bare name (private
+    helpers of the same module), `depth` levels deep: their bodies are read
+    as if inlined at the call site"""
+    defs = {n.name: n for n in tree.body if isinstance(n, ast.FunctionDef)}
+    out = [fn]
+    frontier = [fn]
+    seen = {fn.name}
+    for _ in range(depth):
+        nxt = []
+        for f in frontier:
+            for node in ast.walk(f):
+                if isinstance(node, ast.Call) and isinstance(
+                        node.func, ast.Name) and node.func.id in defs \
+                        and node.func.id not in seen:
+                    seen.add(node.func.id)
+                    nxt.append(defs[node.func.id])
+        out += nxt
+        frontier = nxt
+    return out
+
+
+def _walk_all(fns):
+    for f in fns:
+        for node in ast.walk(f):
+            yield node
+
+
 def _eval_float(node, env):
     """evaluate a float expression made of literals, names and + - * /"""
     if isinstance(node, ast.Constant) and isinstance(
@@ -215,8 +243,9 @@ def extract_buffer_bits(repo=None):
            'precompute_from_anndata.py').read_text()
     tree = ast.parse(src)
     fn = _func(tree, '_process_chunk_spec')
+    worker_fns = _with_helpers(tree, fn)
     int_keys = set()
-    for node in ast.walk(fn):
+    for node in _walk_all(worker_fns):
         if isinstance(node, ast.Assign) and len(node.targets) == 1 and \
                 isinstance(node.targets[0], ast.Subscript) and \
                 ast.unparse(node.targets[0].value) == 'buffer_dict':
@@ -231,17 +260,25 @@ def extract_buffer_bits(repo=None):
     if int_keys != {'n_cells', 'gt0', 'gt1', 'ge1'}:
         raise TranslateError('integer buffers: %s' % sorted(int_keys))
     written = None
-    for node in ast.walk(fn):
-        if isinstance(node, ast.For) and ast.unparse(node.iter) == 'buffer_dict':
+    for node in _walk_all(worker_fns):
+        if isinstance(node, ast.For) and ast.unparse(node.iter) in (
+                'buffer_dict', 'buffer_dict.keys()'):
             body = [ast.unparse(b).replace(' ', '') for b in node.body]
             written = body
     if written != ['dst.create_dataset(k,data=buffer_dict[k])']:
         raise TranslateError('buffers are not written as they are: %s'
                              % written)
+    # the reduction may live in the caller or in a private helper of the same
+    # module (its body is read as if inlined at the call site)
     red = _func(tree, '_precompute_summary_stats_from_h5ad_and_lookup')
-    alloc = [ast.unparse(n.value).replace(' ', '') for n in ast.walk(red)
-             if isinstance(n, ast.Assign) and
-             ast.unparse(n.targets[0]) == 'final_output[k]']
+    alloc = [ast.unparse(n.value).replace(' ', '')
+             for n in _walk_all(_with_helpers(tree, red))
+             if isinstance(n, ast.Assign) and len(n.targets) == 1 and
+             isinstance(n.targets[0], ast.Subscript) and
+             isinstance(n.targets[0].value, ast.Name) and
+             n.targets[0].value.id != 'buffer_dict' and
+             ast.unparse(n.value).replace(' ', '').startswith('np.zeros(')]
+    alloc = sorted(set(alloc))
     if alloc != ['np.zeros(src[k].shape,dtype=src[k].dtype)']:
         raise TranslateError('accumulators: %s' % alloc)
     return int(np.iinfo(int).bits) - 1
